@@ -22,7 +22,7 @@ def snake(s):
             if i > 0 and (not s[i - 1].isupper() or (i + 1 < len(s) and s[i + 1].islower())):
                 out.append("_")
             out.append(ch.lower())
-        elif ch.isdigit() and i > 0 and not s[i - 1].isdigit():
+        elif ch.isdigit() and i > 0 and not s[i - 1].isdigit() and s[i - 1] != "_":
             out.append("_" + ch)
         else:
             out.append(ch)
